@@ -66,7 +66,11 @@ Inductive op :=
 | ReadSec (a : N) (tok : token) (sector : N) (cost : Z)
 | WriteSec (a : N) (tok : token) (sector : N) (cost : Z)
 | VerifySec (a : N) (tok : token) (sector : N) (cost : Z)
-| Expire (c : N)   (* not an RPC: the chain reaches the proof height of [c], or [c] is renewed *).
+| Expire (c : N)   (* not an RPC: the chain reaches the proof height of [c], or [c] is renewed *)
+| Cut (o : op)     (* the stream of [o] ends before the host has read all of the request: the header, or
+                      (write) the announced sector data.  ReadRequest / io.CopyN fail, and both come
+                      before the handler's first Contractor or Sectors call (server.go:190-197, 237-250,
+                      1236-1242): the handler returns an error. *).
 
 (** What a wrapping Contractor / Sectors records, in call order. *)
 Inductive event :=
@@ -302,6 +306,7 @@ Definition step (s : st) (o : op) : st * (list event * res) :=
   | VerifySec a tok sector cost => read_like s a tok sector cost
   | WriteSec a tok sector cost => write s a tok sector cost
   | Expire c => expire s c
+  | Cut _ => fail s
   end.
 
 Fixpoint run (s : st) (ops : list op) : st * list (list event * res) :=
